@@ -182,7 +182,17 @@ class Verifier(Engine):
         if fr.is_generator or c.mode in ("all", "first"):
             ety = parse_type(c.yields or "int")
             st.env["yielded"] = VSeq(IS.empty, "ilist") if ety == "int" else VList(VS.empty, ety)
+        for pname, when in c.pos_independent:
+            cond = z3.BoolVal(True) if when is None else self.truth(st, self.ev1(when, st))
+            v = st.env.get(pname)
+            if z3.is_true(cond) and isinstance(v, VRef) and isinstance(st.heap.get(v.ident), dict):
+                cell = dict(st.heap[v.ident])
+                cell["pos_undefined"] = True      # any use of the position before an absolute seek is an obligation failure
+                st.heap[v.ident] = cell
+            elif not z3.is_false(cond):
+                raise Unsupported("position_independent condition must be decided by the case split")
         self.run_ghosts(st, "entry", None)
+        fr.init_state = st.fork()        # entry ghost bindings (let) are visible to old(...) and to `when=` clauses
         fr.handlers = []
         fr.fn_exits_exc = []
         outcomes = self.ex_block(fr.fdef.body, st)
@@ -754,7 +764,9 @@ class Verifier(Engine):
             else:
                 from .heapmodel import iteration_space
                 count, elem = iteration_space(self, st, itv, stmt)
-        # 1. invariants on entry
+        # 1. invariants on entry (`iter_seq` names the sequence a for loop iterates over)
+        if is_for and isinstance(itv, (VSeq, VList)):
+            st.env["iter_seq"] = itv
         st.env[kname] = VInt(0)
         for i, inv in enumerate(ls.invariants):
             t = self.truth(st, self.ev1(inv, st))
